@@ -627,6 +627,10 @@ func (rr *RunningBucketResults) AddEvalResultsForLatestOrEarliest(runningStats *
 		// the value (can be any dtype) present at index i
 		elTsIdx := i + 1
 		elIdx := i
+		if measureResults[elIdx].IsNull() {
+			// an event that lacks the field provides neither its earliest nor its latest value
+			return 1, nil
+		}
 		(*runningStats)[elTsIdx].syncRawValue()
 		(*runningStats)[elIdx].syncRawValue()
 		elTsChanged := false
